@@ -424,8 +424,52 @@ impl World {
     // ---------------------------------------------------------------------------------------
     // hooks and transport events
 
+    /// Device-visible driver-owned queue memory of `q`: descriptor table followed by the
+    /// available ring.
+    pub fn driver_areas(&self, q: u16) -> Option<Vec<u8>> {
+        let r = self.qreg(q)?;
+        let n = r.size as usize;
+        let mut v = vec![0u8; 16 * n + 6 + 2 * n];
+        self.hal.dev_read(r.desc, &mut v[..16 * n]).ok()?;
+        self.hal.dev_read(r.driver, &mut v[16 * n..]).ok()?;
+        Some(v)
+    }
+
+    /// Hook-placement self-check: what changed in device-visible memory since the last look must
+    /// be exactly what the store event `ev` (kind, index) announces; `None` = no store announced.
+    pub fn audit_stores(&mut self, q: u16, ev: Option<(u32, u16)>) {
+        let Some((aq, snap)) = self.store_audit.take() else { return };
+        if aq != q || self.cfg.scribble {
+            self.store_audit = Some((aq, snap));
+            return;
+        }
+        let Some(cur) = self.driver_areas(q) else {
+            self.store_audit = Some((aq, snap));
+            return;
+        };
+        let n = self.tr.queues[q as usize].size as usize;
+        let allowed: std::ops::Range<usize> = match ev {
+            Some((0, i)) => 16 * i as usize..16 * i as usize + 16,
+            Some((1, i)) => 16 * n + 4 + 2 * i as usize..16 * n + 6 + 2 * i as usize,
+            Some((2, _)) => 16 * n + 2..16 * n + 4,
+            Some((3, _)) => 16 * n + 4 + 2 * n..16 * n + 6 + 2 * n,
+            Some((4, _)) => 16 * n..16 * n + 2,
+            _ => 0..0,
+        };
+        if cur.len() == snap.len() {
+            if let Some(pos) = (0..cur.len()).find(|p| cur[*p] != snap[*p] && !allowed.contains(p)) {
+                let what = if pos < 16 * n { format!("descriptor {} byte {}", pos / 16, pos % 16) } else { format!("available ring byte {}", pos - 16 * n) };
+                self.harness_errors.push(format!(
+                    "unhooked store: {what} of queue {q} changed without a matching store observation point (last event {ev:?}); a store to device-visible queue memory was added to the driver without a hook, so C02 can no longer see every intermediate state"
+                ));
+            }
+        }
+        self.store_audit = Some((aq, cur));
+    }
+
     pub fn on_store(&mut self, kind: u32, q: u16, index: u16) {
         self.ev(0x20 + kind as u8, q as u64, index as u64);
+        self.audit_stores(q, Some((kind, index)));
         self.store_events += 1;
         if kind == 2 {
             if let Some(d) = self.dq.get_mut(q as usize) {
@@ -654,7 +698,7 @@ impl World {
             return false;
         }
         self.stats.device_steps += 1;
-        let a = acts[self.tape.choose(acts.len() as u64) as usize];
+        let a = if self.quiet { acts[0] } else { acts[self.tape.choose(acts.len() as u64) as usize] };
         self.in_device = true;
         match a {
             A::Fetch(q) => self.do_fetch(q),
